@@ -539,7 +539,7 @@ Definition ltx_dec (bs : list Z) : dres (ltx_msg * list Z) :=
   | DErr =>
     (* "if the first element isn't an array, it's a plutus error: the node sends string data":
        the whole input, as UTF-8 *)
-    if bytes_wfb bs && utf8_valid bs then DOk (LtxRejectText bs, bs) else DErr
+    if bytes_wfb bs && utf8_valid bs then DOk (LtxRejectText bs, tl bs) else DErr   (* array() consumed one byte *)
   | DOk (_, r) =>
     '(l, r) <- d_u16 r ;;
     if l =? 0 then
@@ -687,4 +687,149 @@ Definition lf_wf (m : lf_msg) : bool :=
   | LfBlockTxsRequest p bm => wf_point p && wf_bitmaps bm
   | LfBlockTxs p bm txs => wf_point p && wf_bitmaps bm && forallb is_item txs && (len txs <? u64b)
   | LfDone => true
+  end.
+
+(* ------------------------------------------------------------------ DMQ: localmsgsubmission / localmsgnotification (pallas-network) *)
+Record dmq_msg : Type := DmqMsg {
+  dq_id : list Z;
+  dq_body : list Z; dq_kes_period : Z; dq_expires_at : Z;            (* DmqMsgPayload *)
+  dq_kes_sig : list Z;
+  dq_kes_vk : list Z; dq_issue : Z; dq_start_kes : Z; dq_cert_sig : list Z;   (* DmqMsgOperationalCertificate *)
+  dq_cold_vk : list Z }.
+
+Definition enc_dmq (m : dmq_msg) : list Z :=
+  e_array 5 ++ e_bytes (dq_id m) ++
+  (e_array 3 ++ e_bytes (dq_body m) ++ e_uint (dq_kes_period m) ++ e_uint (dq_expires_at m)) ++
+  e_bytes (dq_kes_sig m) ++
+  (e_array 4 ++ e_bytes (dq_kes_vk m) ++ e_uint (dq_issue m) ++ e_uint (dq_start_kes m) ++ e_bytes (dq_cert_sig m)) ++
+  e_bytes (dq_cold_vk m).
+Definition dec_dmq (bs : list Z) : dres (dmq_msg * list Z) :=
+  '(_, r) <- d_array bs ;; '(id, r) <- d_bytes r ;;
+  '(_, r) <- d_array r ;; '(body, r) <- d_bytes r ;; '(kp, r) <- d_u64 r ;; '(ex, r) <- d_u32 r ;;
+  '(sig, r) <- d_bytes r ;;
+  '(_, r) <- d_array r ;; '(vk, r) <- d_bytes r ;; '(iss, r) <- d_u64 r ;; '(st, r) <- d_u64 r ;; '(cs, r) <- d_bytes r ;;
+  '(cold, r) <- d_bytes r ;;
+  DOk (DmqMsg id body kp ex sig vk iss st cs cold, r).
+Definition wf_dmq (m : dmq_msg) : bool :=
+  wf_bytes (dq_id m) && wf_bytes (dq_body m) && in_u u64b (dq_kes_period m) && in_u u32b (dq_expires_at m) &&
+  wf_bytes (dq_kes_sig m) && wf_bytes (dq_kes_vk m) && in_u u64b (dq_issue m) && in_u u64b (dq_start_kes m) &&
+  wf_bytes (dq_cert_sig m) && wf_bytes (dq_cold_vk m).
+
+(* DmqMsgRejectReason (= DmqMsgValidationError, a transparent wrapper) *)
+Inductive dmq_reason : Type := DrInvalid (s : list Z) | DrAlreadyReceived | DrExpired | DrOther (s : list Z).
+Definition enc_dmq_reason (x : dmq_reason) : list Z :=
+  match x with
+  | DrInvalid s => e_array 2 ++ e_uint 0 ++ e_str s
+  | DrAlreadyReceived => e_array 1 ++ e_uint 1
+  | DrExpired => e_array 1 ++ e_uint 2
+  | DrOther s => e_array 2 ++ e_uint 3 ++ e_str s
+  end.
+Definition dec_dmq_reason (bs : list Z) : dres (dmq_reason * list Z) :=
+  '(l, r) <- d_array bs ;;
+  match l with
+  | None => DErr                                   (* expected definite length array *)
+  | Some n =>
+    if n =? 0 then DErr else
+    '(tag, r) <- d_u8 r ;;
+    if (tag =? 0) && (n =? 2) then '(s, r) <- d_str r ;; DOk (DrInvalid s, r)
+    else if (tag =? 1) && (n =? 1) then DOk (DrAlreadyReceived, r)
+    else if (tag =? 2) && (n =? 1) then DOk (DrExpired, r)
+    else if (tag =? 3) && (n =? 2) then '(s, r) <- d_str r ;; DOk (DrOther s, r)
+    else DErr
+  end.
+Definition wf_dmq_reason (x : dmq_reason) : bool :=
+  match x with DrInvalid s | DrOther s => wf_text s | _ => true end.
+
+(* localmsgsubmission = localtxsubmission::Message<DmqMsg, DmqMsgValidationError> *)
+Inductive lms_msg : Type := LmsSubmit (m : dmq_msg) | LmsAccept | LmsReject (x : dmq_reason) | LmsDone.
+Definition lms_enc (m : lms_msg) : list Z :=
+  match m with
+  | LmsSubmit x => e_array 2 ++ e_uint 0 ++ enc_dmq x
+  | LmsAccept => e_array 1 ++ e_uint 1
+  | LmsReject x => e_array 2 ++ e_uint 2 ++ enc_dmq_reason x
+  | LmsDone => e_array 1 ++ e_uint 3
+  end.
+Definition lms_dec (bs : list Z) : dres (lms_msg * list Z) :=
+  match d_array bs with
+  | DEoi => DEoi
+  | DErr =>
+    (* not an array: the whole input as UTF-8 becomes DmqMsgValidationError::from(String) = Other(s);
+       the decoder has consumed the one byte array() read *)
+    if bytes_wfb bs && utf8_valid bs then DOk (LmsReject (DrOther bs), tl bs) else DErr
+  | DOk (_, r) =>
+    '(l, r) <- d_u16 r ;;
+    if l =? 0 then '(x, r) <- dec_dmq r ;; DOk (LmsSubmit x, r)
+    else if l =? 1 then DOk (LmsAccept, r)
+    else if l =? 2 then '(x, r) <- dec_dmq_reason r ;; DOk (LmsReject x, r)
+    else if l =? 3 then DOk (LmsDone, r)
+    else DErr
+  end.
+Definition lms_wf (m : lms_msg) : bool :=
+  match m with LmsSubmit x => wf_dmq x | LmsReject x => wf_dmq_reason x | _ => true end.
+
+(* localmsgnotification *)
+Inductive lmn_msg : Type :=
+| LmnRequestNonBlocking | LmnReplyNonBlocking (msgs : list dmq_msg) (has_more : bool)
+| LmnRequestBlocking | LmnReplyBlocking (msgs : list dmq_msg) | LmnClientDone.
+Definition lmn_enc (m : lmn_msg) : list Z :=
+  match m with
+  | LmnRequestNonBlocking => e_array 2 ++ e_uint 0 ++ e_bool false
+  | LmnReplyNonBlocking l hm => e_array 3 ++ e_uint 1 ++ e_indef_vec enc_dmq l ++ e_bool hm
+  | LmnRequestBlocking => e_array 2 ++ e_uint 0 ++ e_bool true
+  | LmnReplyBlocking l => e_array 2 ++ e_uint 2 ++ e_indef_vec enc_dmq l
+  | LmnClientDone => e_array 1 ++ e_uint 3
+  end.
+Definition lmn_dec (bs : list Z) : dres (lmn_msg * list Z) :=
+  '(_, r) <- d_array bs ;; '(l, r) <- d_u16 r ;;
+  if l =? 0 then '(b, r) <- d_bool r ;; DOk (if b then LmnRequestBlocking else LmnRequestNonBlocking, r)
+  else if l =? 1 then '(ms, r) <- d_vec dec_dmq r ;; '(hm, r) <- d_bool r ;; DOk (LmnReplyNonBlocking ms hm, r)
+  else if l =? 2 then '(ms, r) <- d_vec dec_dmq r ;; DOk (LmnReplyBlocking ms, r)
+  else if l =? 3 then DOk (LmnClientDone, r)
+  else DErr.
+Definition lmn_wf (m : lmn_msg) : bool :=
+  match m with LmnReplyNonBlocking l _ | LmnReplyBlocking l => forallb wf_dmq l | _ => true end.
+
+(* ------------------------------------------------------------------ localstate queries_v16: Request framing, parameterless queries *)
+(* BlockQuery tags without parameter (tag 34 = the legacy one-element GetBigLedgerPeerSnapshot) *)
+Definition lq_nullary (t : Z) : bool :=
+  existsb (Z.eqb t) [0; 1; 3; 4; 5; 7; 8; 11; 12; 13; 14; 16; 18; 23; 24; 29; 32; 33; 34; 37].
+Inductive lq_req : Type :=
+| LqBlock (era tag : Z)        (* Request::LedgerQuery(LedgerQuery::BlockQuery(era, <parameterless query tag>)) *)
+| LqHardFork (tag : Z)         (* 0 GetInterpreter, 1 GetCurrentEra *)
+| LqSystemStart | LqChainBlockNo | LqChainPoint.
+Definition lq_enc (m : lq_req) : list Z :=
+  match m with
+  | LqBlock era t =>
+    (* e.encode((0, q)); q = (0, (era, bq)); bq = array(1) tag *)
+    e_array 2 ++ e_uint 0 ++ (e_array 2 ++ e_uint 0 ++ (e_array 2 ++ e_uint era ++ (e_array 1 ++ e_uint t)))
+  | LqHardFork t => e_array 2 ++ e_uint 0 ++ (e_array 2 ++ e_uint 2 ++ (e_array 1 ++ e_uint t))
+  | LqSystemStart => e_array 1 ++ e_uint 1
+  | LqChainBlockNo => e_array 1 ++ e_uint 2
+  | LqChainPoint => e_array 1 ++ e_uint 3
+  end.
+(* the decoder restricted to the parameterless queries: a BlockQuery tag with parameters is
+   answered DErr here (its parameter decoders are outside this model) *)
+Definition lq_dec (bs : list Z) : dres (lq_req * list Z) :=
+  '(_, r) <- d_array bs ;; '(tag, r) <- d_u16 r ;;
+  if tag =? 0 then
+    '(_, r) <- d_array r ;; '(lt, r) <- d_u16 r ;;
+    if lt =? 0 then
+      '(l, r) <- d_array r ;;                 (* (era, q): minicbor 2-tuple *)
+      if len_is l 2 then
+        '(era, r) <- d_u16 r ;; '(n, r) <- d_array r ;; '(t, r) <- d_u16 r ;;
+        if lq_nullary t && (negb (t =? 34) || len_is n 1) then DOk (LqBlock era t, r) else DErr
+      else DErr
+    else if lt =? 2 then
+      '(_, r) <- d_array r ;; '(t, r) <- d_u16 r ;;
+      if (t =? 0) || (t =? 1) then DOk (LqHardFork t, r) else DErr
+    else DErr
+  else if tag =? 1 then DOk (LqSystemStart, r)
+  else if tag =? 2 then DOk (LqChainBlockNo, r)
+  else if tag =? 3 then DOk (LqChainPoint, r)
+  else DErr.
+Definition lq_wf (m : lq_req) : bool :=
+  match m with
+  | LqBlock era t => in_u u16b era && lq_nullary t
+  | LqHardFork t => (t =? 0) || (t =? 1)
+  | _ => true
   end.
